@@ -92,7 +92,8 @@ THEOREMS = [
     "Jinns.Equations.evaluate_glv",
     "Jinns.Equations.evaluate_massConservation",
     "Jinns.Equations.evaluate_navierStokes",
-    "Jinns.Equations.evaluate_navierStokes_needs_top_level_rho",
+    "Jinns.Equations.evaluate_navierStokes_per_network",
+    "Jinns.Equations.evaluate_navierStokes_flat",
     "Jinns.Equations.evaluate_dispatch",
     "Jinns.Equations.evaluate_statio_ignores_Tmax",
     "Jinns.Equations.mvLawful",
@@ -113,8 +114,9 @@ RULE = ("cases = (built-in, Tmax, equation parameters by role, eq_params layout,
         "documented residual vanishes at the point (solved from Lean's documented expression) and the same "
         "perturbed; fields solving the equation identically (constants / logistic equilibrium / heat polynomials / "
         "GLV equilibrium / stream-function fields / Poiseuille and stagnation-point flows) and the same perturbed; "
-        "the inherited Fokker-Planck equation() with non-symmetric polynomial drift and diffusion; one rejected "
-        "layout (Navier-Stokes without top-level rho) and one guard case (GLV with u_main(t) = 0)")
+        "the inherited Fokker-Planck equation() with non-symmetric polynomial drift and diffusion; one guard case "
+        "(GLV with u_main(t) = 0); every eq_params layout extract_params accepts is an ordinary case (a rejection "
+        "of one is the Holds clause valid-layout-rejected)")
 ASSUMPTIONS = [
     "JAX AD contract: grad/hessian/jacrev of a polynomial network return its exact partial derivatives; "
     "grad(log(u)) = u'/u",
@@ -237,7 +239,10 @@ def _request(case, observed):
 
 
 def lean_request(case, obs):
-    return _request(case, obs.get("value"))
+    req = _request(case, obs.get("value"))
+    if "error" in obs:
+        req["rejected"] = True  # a rejection is an observation: Holds decides whether the layout was valid
+    return req
 
 
 # --------------------------------------------------------------------------------------------
@@ -332,14 +337,11 @@ def _user_fpe(case, Tmax):
 def judge(case, obs, a):
     merr = a.get("model_error")
     if "error" in obs:
+        if not a["holds"]:  # Holds.C02: the documented expression is defined here, the layout is valid
+            return {"status": "violation", "clause": a["clause"], "error": obs["error"], "message": obs.get("message")}
         if merr is not None and not merr.startswith("guard"):
-            kinds = {"KeyError": "other:KeyError"}
-            want = next((v for k, v in kinds.items() if merr.startswith(k)), None)
-            if want is None or want == obs["error"]:
-                return {"status": "ok", "clause": None, "rejected": obs["error"]}
-            return {"status": "disagree", "clause": "rejection-kind-differs", "model_error": merr}
-        return {"status": "violation", "clause": f"{case['kind']}:evaluate-raised-where-the-documented-expression-is-defined",
-                "error": obs["error"], "message": obs.get("message")}
+            return {"status": "ok", "clause": None, "rejected": obs["error"]}
+        return {"status": "disagree", "clause": "implementation-rejects-but-model-returns", "error": obs["error"]}
     if obs.get("nonfinite"):
         if merr is not None and merr.startswith("guard"):
             return {"status": "ok", "clause": None, "guard": True}
@@ -546,17 +548,22 @@ def _statio_params(rng, c, ukey, pkey, layouts):
     decoy = lambda: {"sub": [["rho", _q(rho * 2)], ["nu", _q(nu + 1)]]}
     if c["layout"] == "flat":
         c["eq_params"] = flat
-    elif c["layout"] == "mixed":
-        c["eq_params"] = [[ukey, decoy()], [pkey, decoy()]] + flat
-    else:  # nested_only: no top-level rho / nu
-        c["eq_params"] = [[ukey, {"sub": [["rho", _q(rho)], ["nu", _q(nu)]]}],
-                          [pkey, {"sub": [["rho", _q(rho)], ["nu", _q(nu)]]}]]
+    else:
+        # per-network layout: the VELOCITY network's sub-dictionary holds rho and nu; the pressure network's
+        # sub-dictionary (and, for "nested_top_decoy", top-level entries) hold other values that must not be read
+        real = [["rho", _q(rho)], ["nu", _q(nu)]]
+        rng.shuffle(real)
+        ep = [[ukey, {"sub": real}], [pkey, decoy()]]
+        rng.shuffle(ep)
+        if c["layout"] == "nested_top_decoy":
+            ep += [["rho", _q(rho * 4)], ["nu", _q(nu + 2)]]
+        c["eq_params"] = ep
 
 
 def _gen_mass(rng):
     c = _base("mass", rng)
     ukey, pkey = rng.choice(STATIO_KEYS)
-    _statio_params(rng, c, ukey, pkey, ["flat", "mixed", "nested_only"])
+    _statio_params(rng, c, ukey, pkey, ["flat", "nested", "nested_top_decoy"])
     c["sem"] = {}
     c["keys"] = {"nn_key": ukey}
     nets = [[ukey, [_pj(_rand_poly(rng, 2, 3, 5)), _pj(_rand_poly(rng, 2, 3, 5))]],
@@ -572,7 +579,7 @@ def _gen_mass(rng):
 def _gen_ns(rng, layout=None):
     c = _base("ns", rng)
     ukey, pkey = rng.choice(STATIO_KEYS)
-    _statio_params(rng, c, ukey, pkey, [layout] if layout else ["flat", "flat", "mixed"])
+    _statio_params(rng, c, ukey, pkey, [layout] if layout else ["flat", "nested", "nested", "nested_top_decoy"])
     c["keys"] = {"u_key": ukey, "p_key": pkey}
     nets = [[ukey, [_pj(_rand_poly(rng, 2, 3, 5)), _pj(_rand_poly(rng, 2, 3, 5))]],
             [pkey, [_pj(_rand_poly(rng, 2, 3, 5))]]]
@@ -786,8 +793,7 @@ def gen_cases(rng, tier):
             c = GEN[kind](rng)
             c["Tmax"] = T
             cases.append(c)
-    # rejection and guard branches
-    cases.append(_gen_ns(rng, layout="nested_only"))
+    # guard branch
     g = _gen_glv(rng, n_other=1, pow2=True)
     from harness.polynet import P
     g["nets"] = [[nm, ([_pj(P.var(1, 0) - Fraction(g["t"]))] if nm == g["keys"]["main"] else ps)] for nm, ps in g["nets"]]
